@@ -5,6 +5,7 @@ preprocessor is NOT decided (behavioural)."""
 from __future__ import annotations
 
 import ast
+import re
 
 from ..decision import NOTHING, Evaluator, Hooks, Sym, vtext
 from ..model import AnalysisError, callee, const, dotted, u, walk_no_nested
@@ -135,12 +136,33 @@ def r3(ctx):
                 i = blk.index(s)
                 ok = any(isinstance(x, ast.Assign) and u(x.targets[0]) == base and isinstance(x.value, ast.Call) and u(x.value.func) == "copy" for x in blk[:i])
         ctx.check(ok, f"preprocessor:MacroExpander.expand:paint-on-copy:{u(s)}", f"`{u(s)}` must mark a copy of the token: tokens are shared with the parse tree and with every other platform", exp.loc(s))
-    # pushes
-    pushes = [c for c in exp.calls() if u(c.func) == "self.push"]
-    for c in pushes:
-        ok = len(c.args) == 2 and u(c.args[1]) == "macro_lookup.name"
-        ctx.check(ok, f"preprocessor:MacroExpander.expand:push:{u(c)}", "a replacement must be pushed under the macro's own name (so that the name is not re-expanded while rescanning)", exp.loc(c))
-    ctx.check(len(pushes) == 2, "preprocessor:MacroExpander.expand:push-both-arms", f"expected a push in the function-like and the object-like arm, found {len(pushes)}", exp.loc())
+    # pushes (decision table of one scanner iteration): a replacement is pushed exactly when a macro was looked up and
+    # found expandable, once, under the macro's own name
+    from .. import review
+    from ..spec import vt
+
+    t = review.table(exp, unroll=0, events=True)
+    if isinstance(t, Exception) or not t:
+        raise AnalysisError(f"MacroExpander.expand: decision table not available ({t})")
+    n_push = 0
+    for p in t:
+        pushes = [e for e in p.effects if e[0] == "call" and e[1] == "self.push"]
+        macros = {m.group(1) for k, v in p.atoms.items() if v for m in [re.match(r"isinstance\((.+), (Macro|MacroFunction)\)$", vt(k))] if m}
+        replaced = [m for m in macros if any(f"{m}.replace(" in vt(x) for e in pushes for x in e[2:3])]
+        key = f"preprocessor:MacroExpander.expand:push:{'macro' if macros else 'no-macro'}"
+        if not macros:
+            ctx.check(not pushes, key, f"something is pushed although no macro was found: {[vt(x) for e in pushes for x in e[2:]][:2]}", exp.loc())
+            continue
+        computed = any(any(f"{m}.replace(" in vt(k) for m in macros) for k in p.atoms) or bool(pushes)
+        if p.result[0] == "raise":
+            continue
+        if not computed:
+            continue  # no replacement obtained on this path (not a call, not expandable, ...)
+        n_push += len(pushes)
+        ok = len(pushes) == 1 and len(pushes[0]) == 4 and len(replaced) == 1 and vt(pushes[0][3]) == f"{replaced[0]}.name"
+        ctx.check(ok, key, f"the replacement of a macro must be pushed exactly once, under the macro's own name (so that the name is not re-expanded while rescanning): {[[vt(x)[:60] for x in e[2:]] for e in pushes]}", exp.loc())
+    if not n_push:
+        raise AnalysisError("MacroExpander.expand: no path pushes a replacement: idiom not recognised")
     push = me.find_method("push")
     ok = any(_is_call_stmt(s, "self.no_expand.append") and u(s.value.args[0]) == push.params[2] for s in push.node.body)
     ctx.check(ok, "preprocessor:MacroExpander.push:paints-ident", "push() must put the given name on the paint stack", push.loc())
